@@ -189,6 +189,10 @@ func (m c18) Case(c *Ctx, r *RNG) {
 		rs.Attrs["bytes"] = Val{K: KBytes, Bytes: []byte{9, 8, 7, byte(r.Intn(256))}}
 		if r.Chance(4, 5) {
 			rs.Attrs["nbytes"] = Val{K: KBytes, Null: true, Bytes: []byte{3, 2, 1}}
+		} else if r.Bool() {
+			// a non-nil pointer to an empty (nil or zero-length) byte string
+			rs.Attrs["nbytes"] = Val{K: KBytes, Null: true, NilSlice: r.Bool()}
+			c.Count("sources_with_pointer_to_empty_bytes")
 		}
 	}
 	if t.Rel("many") != nil {
@@ -207,7 +211,7 @@ func (m c18) Case(c *Ctx, r *RNG) {
 	}
 	nm := r.Range(1, 12)
 	var muts []c18mut
-	kinds := []string{"set", "set", "marshal", "filter", "inplace-bytes", "inplace-ids", "inplace-nbytes", "type-edit", "set-rel", "append-set"}
+	kinds := []string{"set", "set", "marshal", "filter", "inplace-bytes", "inplace-ids", "inplace-nbytes", "type-edit", "set-rel", "append-set", "assign-nbytes"}
 	for i := 0; i < nm; i++ {
 		mu := c18mut{Side: r.Intn(2), Kind: kinds[r.Intn(len(kinds))]}
 		switch mu.Kind {
@@ -408,6 +412,13 @@ func (m c18) run(c *Ctx, t *TypeSpec, rs *ResSpec, muts []c18mut) {
 			case "inplace-ids":
 				if ids, ok := active.Get("many").([]string); ok && len(ids) > 0 {
 					ids[0] = "mutated-" + ids[0]
+				} else {
+					applied = false
+				}
+			case "assign-nbytes":
+				// the byte string behind the pointer Get returns is replaced (grown) through that pointer
+				if p, ok := active.Get("nbytes").(*[]byte); ok && p != nil {
+					*p = append(*p, 0x7)
 				} else {
 					applied = false
 				}
